@@ -8,7 +8,7 @@ LEAN_MODULES = ["ViaProofs.C07"]
 LEMMA_MODULES = ['ViaProofs.Frag.Lines', 'ViaProofs.Frag.Headers', 'ViaProofs.Frag.Compose', 'ViaProofs.C05', 'ViaProofs.Trans.SL', 'ViaProofs.Trans.FL', 'ViaProofs.Trans.CH', 'ViaProofs.Trans.MH', 'ViaProofs.Trans.CK', 'ViaProofs.Trans.RQ', 'ViaProofs.Trans.RS', 'ViaProofs.Trans.MHA', 'ViaProofs.Trans.RQP']
 REQUIRED_THEOREMS = ["Via.C07_frag", "Via.RS.receive_head_seq", "Via.RS.receive_head_fail_seq"]
 LEVEL = "proof"
-LEVEL_TEXT = ('PROOF of fragmentation invariance and single-read correctness for the response receiver model (C07_frag); translated response_line / field_line / chunk parsers, rx_response::parse and response_receiver::receive + clear (Trans/RS, lifted to the client's per-read loop: RS_readLoop_translated); differential correspondence incl. response sequences whose reads run over message boundaries, and the same through the REAL http_client read loop.')
+LEVEL_TEXT = ('PROOF of fragmentation invariance and single-read correctness for the response receiver model (C07_frag); translated response_line / field_line / chunk parsers, rx_response::parse and response_receiver::receive + clear (Trans/RS, lifted to the per-read loop of the client: RS_readLoop_translated); differential correspondence incl. response sequences whose reads run over message boundaries, and the same through the REAL http_client read loop.')
 RULE = ("well-formed responses framed by Content-Length or chunked coding (hand-written feature set + random within the limits) "
         "and their single-change malformed variants (version token, status syntax / over limit, reason over limit, whitespace "
         "runs, header-name byte, Content-Length syntax, chunk size syntax, chunk terminator, bare LF under strict) x partitions "
